@@ -114,6 +114,31 @@ def specAnswer (a : Args) : String :=
       else "FAIL:" ++ joinStr ";" (canonSet ((PtaSpec.violating arch r).map (renderSItem (!r.importDir))))
     s!"S={v} D={dom}"
 
+/-! ### specification automaton for call histories -/
+
+def toRCall : RuleOp → PtaSpec.RCall
+  | .modulesThat => .modulesThat
+  | .areNamed ns => .naming (!ns.isEmpty)
+  | .areSubModulesOf ns => .naming (!ns.isEmpty)
+  | .haveNameMatching _ => .naming true
+  | .haveNameContaining ps => .naming (!ps.isEmpty)
+  | .should => .should
+  | .shouldOnly => .shouldOnly
+  | .shouldNot => .shouldNot
+  | .importThat => .importType false
+  | .beImportedByThat => .importType false
+  | .importExcept => .importType true
+  | .beImportedByExcept => .importType true
+  | .importAnything => .anything
+  | .beImportedByAnything => .anything
+
+def renderClass : PtaSpec.RClass → String
+  | .errorAtCall i => s!"errorAt{i}"
+  | .incomplete => "incomplete"
+  | .contradictory => "contradictory"
+  | .unspecified => "unspecified"
+  | .complete => "complete"
+
 /-! ### handlers -/
 
 def handleRule (a : Args) : String :=
@@ -121,7 +146,7 @@ def handleRule (a : Args) : String :=
   let ops := (splitList ";" (a.get "ops")).filterMap parseRuleOp
   let table := parseMatchTable (a.get "mtab")
   let (v, i) := runRuleOps convertPartialMatch (tableMatches table) ops g
-  s!"M={renderVerdict v} I={i} {specAnswer a}"
+  s!"M={renderVerdict v} I={i} {specAnswer a} C={renderClass (PtaSpec.classifyRule (ops.map toRCall))}"
 
 def handleQuery (a : Args) : String :=
   let g := graphOf a
